@@ -27,7 +27,7 @@ EXPLANATION = (
     "(R5, extended) the body of graphutils.max_occurrence counts a constraint edge iff it is a consecutive node pair of the path, weighted by its length; the greedy test compares like with like (edge counts against len*coverage, lengths against total length*coverage).  "
     " (R8) declared starts / ends and ignored elements reach every derived computation: every source-sink graph a class builds over its graph gets the additional starts / ends (or the class provably materialises them in the node expansion), NodeExpandedDiGraph gets try_filling_in_missing_flow_attr=True whenever starts / ends are passed, the greedy and flow-safe-paths shortcuts of kFlowDecomp are taken only when nothing is ignored and the flow is conserved, the flow-valued repetition cap of kFlowDecompCycles reads only non-ignored edges, and the internal ignore list only grows after its per-mode definition. "
     " (R8, extended) a class that takes length_attr passes it to the node expansion (node_length_attr), and percentile options are computed over non-ignored elements. "
-    "NOT decided: that the optimum is taken over exactly the constrained solutions; 'and nothing else' for ignored elements."
+    "Rows 7a sum their indicators over the very collection whose size is the threshold (duplicates included: counted = measured).  NOT decided: that the optimum is taken over exactly the constrained solutions; 'and nothing else' for ignored elements."
     ' (R8, hunt 4) the cap provider of the cyclic error models excludes ignored edges from the maxima and gives them a structural bound (C04.R5).'
     " (R8, hunt 6) MinErrorFlow's variable bound is computed from non-ignored elements (C16.R8)."
 )
